@@ -120,7 +120,10 @@ func (r *RateLimit) ServeDNS(ctx context.Context, ch *middleware.Chain) {
 	l := r.getLimiter(w.RemoteIP())
 	cachedcookie = l.cookie.Load().(string)
 
-	if opt := req.IsEdns0(); opt != nil {
+	// An OPT of a version this server does not implement is answered
+	// BADVERS by the edns handler further down; its options, the cookie
+	// included, are not interpreted here (RFC 6891 §6.1.3).
+	if opt := req.IsEdns0(); opt != nil && opt.Version() == 0 {
 		for _, option := range opt.Option {
 			if option.Option() == dns.EDNS0COOKIE {
 				if len(option.String()) >= cookieSize {
@@ -177,7 +180,7 @@ func (r *RateLimit) storeCookieAfterReplay(ch *middleware.Chain) {
 		return
 	}
 	echo := ch.Request.CookieEcho()
-	if echo == nil {
+	if echo == nil || ch.Request.EDNSVersion() != 0 {
 		return
 	}
 	fullcookie := hex.EncodeToString(echo)
@@ -200,7 +203,7 @@ func (r *RateLimit) serveWire(ctx context.Context, ch *middleware.Chain) {
 	l := r.getLimiter(w.RemoteIP())
 	cachedcookie := l.cookie.Load().(string)
 
-	if echo := ch.Request.CookieEcho(); echo != nil {
+	if echo := ch.Request.CookieEcho(); echo != nil && ch.Request.EDNSVersion() == 0 {
 		fullcookie := hex.EncodeToString(echo)
 		clientcookie := fullcookie[:cookieSize]
 		servercookie := dnsutil.GenerateServerCookie(r.cookiesecret, w.RemoteIP().String(), clientcookie)
